@@ -449,15 +449,23 @@ func replay(args []string) error {
 		return err
 	}
 	ops, nv := 0, 0
+	acc := map[string]int{}
 	for k := range res {
 		for _, ev := range res[k] {
 			tw.Emit(ev)
+			if ev["res"] == "accept" {
+				acc[ev.Str("op")]++
+			}
+			if o, ok := ev["obs"].(collObs); ok && o.Cert && ev.Str("op") == "votemsg" {
+				acc["certified"]++
+			}
 		}
 		ops += len(res[k]) - 1
 		nv += verifs[k]
 	}
 	tw.Close()
-	fmt.Printf("{\"behaviours\":%d,\"ops\":%d,\"entries\":%d}\n", len(behs), ops, nv)
+	fmt.Printf("{\"behaviours\":%d,\"ops\":%d,\"entries\":%d,\"accept_proposal\":%d,\"accept_vote\":%d,\"accept_thr\":%d,\"certified_events\":%d}\n",
+		len(behs), ops, nv, acc["proposal"], acc["vote"], acc["thr"], acc["certified"])
 	return nil
 }
 
